@@ -1,6 +1,7 @@
 import Ledger.Driver.ApiCommon
 import Ledger.Driver.ApiHttp
 import Ledger.Api.TxBody
+import Ledger.Api.Cursor
 import Ledger.Driver.ApiVars
 
 /-! Handlers "txbody" (C38 predicate) and "txbody36" (C36 predicate): bodies of the
@@ -35,7 +36,7 @@ def realCallJson (c : Json) : Json :=
   let a := (c.getObjVal? "args").toOption.getD Json.null
   let get (k : String) : Json := (a.getObjVal? k).toOption.getD Json.null
   let objOrEmpty (k : String) : Json := match get k with | .null => Json.mkObj [] | j => j
-  let base : List (String × Json) := [("method", m), ("ik", get "ik")]
+  let base : List (String × Json) := [("method", m), ("ik", get "ik"), ("dryRun", get "dryRun"), ("schemaVersion", get "schemaVersion")]
   let rest : List (String × Json) :=
     if m = "CreateTransaction" then
       [("plain", get "plain"), ("template", get "template"), ("vars", objOrEmpty "vars"), ("timestamp", get "timestamp"),
@@ -116,7 +117,22 @@ def handleTxbodyWith (c36 : Bool) : Handler := fun inp out => do
     match times.lookup s with
     | some "" | none => none
     | some t => some t
-  let m := txModel kind pt force body
+  let m0 := txModel kind pt force body
+  -- request-level parameters (query string / headers) every write call must carry
+  let dryRunRaw := optStrField inp "dryRun"
+  let schemaVersion := optStrField inp "schemaVersion"
+  let ikHeader := optStrField inp "ik"
+  let isV1 := kind = "createV1" || kind = "metaV1"
+  let upper (x : String) : String := String.ofList (x.toList.map fun c => if 97 ≤ c.toNat ∧ c.toNat ≤ 122 then Char.ofNat (c.toNat - 32) else c)
+  let dryRun : Bool :=
+    if kind = "bulk" then false
+    else if isV1 then upper dryRunRaw = "YES" || upper dryRunRaw = "TRUE" || dryRunRaw = "1"
+    else boolParam dryRunRaw
+  let withParams (c : Json) : Json :=
+    let c := c.setObjVal! "dryRun" dryRun
+    let c := c.setObjVal! "schemaVersion" (if isV1 then "" else schemaVersion)
+    if kind = "bulk" then c else c.setObjVal! "ik" ikHeader
+  let m := { m0 with calls := m0.calls.map withParams }
   let gStatus ← intField out "status"
   let gCode := optStrField out "errorCode"
   let gPanic ← boolField out "panic"
@@ -148,6 +164,14 @@ def handleTxbodyWith (c36 : Bool) : Handler := fun inp out => do
      | _ => false)
   let agree := (mixed && gStatus = 400 && gCode = "VALIDATION" && gCalls.isEmpty) || gStatus = m.status && gPanic = m.panic && (gStatus ≠ 400 || gCode = m.code || kind = "bulk") &&
     (if exact then callsOk else gCalls.length = m.calls.length)
+  -- first member on which a real call differs from the predicted one
+  let diffField : String :=
+    if gCalls.length ≠ m.calls.length then "call-count" else
+    ((gCalls.zip m.calls).findSome? fun (a, b) =>
+      match a, b with
+      | .obj ka, .obj _ => (ka.toList.findSome? fun (k, v) =>
+          if (b.getObjVal? k).toOption == some v then none else some k)
+      | _, _ => none).getD ""
   let prop38 := !gPanic && gStatus < 500 && (gStatus < 400 || kind = "bulk" || gCalls.isEmpty)
   -- C36: every integer amount of an accepted postings request reaches the controller unchanged
   let realVars : List String := gCalls.flatMap fun c =>
@@ -168,10 +192,18 @@ def handleTxbodyWith (c36 : Bool) : Handler := fun inp out => do
          nontrivial := if c36 then big else gStatus ≥ 400,
          tags := [s!"{kind}:{gStatus}"] ++ (if exact then [] else ["float>15digits"]) ++ (if big then ["amount>2^53"] else []),
          note := if prop then "" else if c36 then "posting amount changed: " ++ ", ".intercalate lost else "panic / 5xx / write on a 4xx",
-         sig := if prop then "" else if c36 then s!"C36:{kind}-posting-amount" else
+         sig := if prop then (if agree then "" else s!"txbody:{kind}:field:{if gStatus = m.status then diffField else "status"}") else if c36 then s!"C36:{kind}-posting-amount" else
            (if kind = "createV1" && gPanic then "C38:v1-vars-panic" else s!"C38:txbody:{kind}:{gStatus}") }
 
 def handleTxbody : Handler := handleTxbodyWith false
+/-- C14 at the API boundary: same comparison (every field of the write call, sig per
+    field); the predicate is the agreement itself on the `reference` member. -/
+def handleTxbody14 : Handler := fun inp out => do
+  let v ← handleTxbodyWith false inp out
+  let refLost := !v.agree && (v.sig.splitOn ":field:reference").length > 1
+  pure { v with prop := !refLost, propModel := true,
+                note := if refLost then "the transaction reference the client sent did not reach the controller" else v.note,
+                sig := if refLost then "C14:api:reference-dropped" else v.sig }
 def handleTxbody36 : Handler := handleTxbodyWith true
 
 end Ledger.Driver.Api
